@@ -3,6 +3,7 @@ package main
 import (
 	"errors"
 	"fmt"
+	"github.com/spf13/viper"
 	"sort"
 	"strings"
 	"sync"
@@ -172,9 +173,16 @@ func runZkScenario(line string) string {
 	if err := verifhook.StartZookeeper(app, fake, fake.events); err != nil {
 		return "bad-op"
 	}
-	nc := verifhook.NewNotifier(app, map[string]verifhook.NotifierModule{}, sc.mi)
+	// one recording module (settings under notifier.zm, set once in runZkLoop): group g0 is put into an announced incident
+	// before the evaluation loops start; after the scenario — lock lost and regained any number of times — its next
+	// result must still belong to that incident (same id, same start)
+	var sink []recNote
+	nc := verifhook.NewNotifier(app, map[string]verifhook.NotifierModule{"zm": &recModule{name: "zm", sink: &sink}}, sc.mi)
 	for g := 0; g < sc.groups; g++ {
 		nc.AddGroup("c0", fmt.Sprintf("g%d", g), time.Hour)
+	}
+	if sc.groups > 0 {
+		nc.Deliver(&protocol.ConsumerGroupStatus{Cluster: "c0", Group: "g0", Status: protocol.StatusError})
 	}
 	type evalSeen struct {
 		group string
@@ -302,7 +310,15 @@ func runZkScenario(line string) string {
 		}
 	}
 	fake.mu.Unlock()
-	return fmt.Sprintf("locks=%d unlocks=%d gap=%s live=%d pace=%s prelock=%d burst=%s", locks, unlocks, gs, live, pace, prelock, burst)
+	inc := "-"
+	if sc.groups > 0 {
+		nc.Deliver(&protocol.ConsumerGroupStatus{Cluster: "c0", Group: "g0", Status: protocol.StatusError})
+		inc = "changed"
+		if len(sink) == 2 && sink[0].id != "" && sink[0].id == sink[1].id && sink[0].start.Equal(sink[1].start) && !sink[0].start.IsZero() {
+			inc = "same"
+		}
+	}
+	return fmt.Sprintf("locks=%d unlocks=%d gap=%s live=%d pace=%s prelock=%d burst=%s inc=%s", locks, unlocks, gs, live, pace, prelock, burst, inc)
 }
 
 func runZkLoop(r *runner) {
@@ -314,6 +330,12 @@ func runZkLoop(r *runner) {
 		}
 		lines = append(lines, line)
 	}
+	// the recording module's settings (viper is process-global and not safe for concurrent writes: set before the
+	// scenarios run in parallel): every result is notified, so that the incident's identity can be read off
+	viper.Set("notifier.zm.threshold", 1)
+	viper.Set("notifier.zm.send-interval", 0)
+	viper.Set("notifier.zm.send-once", false)
+	viper.Set("notifier.zm.send-close", true)
 	results := make([]string, len(lines))
 	sem := make(chan struct{}, 16)
 	var wg sync.WaitGroup
